@@ -100,11 +100,10 @@ class TextWriter:
     def write_table_definition(self, table: components.Table):
         self.emit("(", "table")
         self.gen_id(table.id)
-        if table.max is None:
-            if table.min != 0:
-                self.emit(f"{table.min:d}")
-        else:
-            self.emit(f"{table.min:d}")
+        # Always print the minimum: "(table funcref" is the start of the
+        # inline element abbreviation.
+        self.emit(f"{table.min:d}")
+        if table.max is not None:
             self.emit(f"{table.max:d}")
         self.emit(table.kind)
         self.emit(")")
